@@ -476,6 +476,7 @@ class C06(Prop):
         cmp = getattr(self, "compare", True)
         th = tier == "thorough"
         core.tie_run(stats, "vq", ["gen-stress", seed, 24 if th else 8, 20000 if th else 3000], self.nontrivial, cmp)
+        core.tie_run(stats, "vq", ["gen-clones", 600000 if th else 150000], self.nontrivial, cmp)
         core.tie_run(stats, "vq", ["gen-conc", seed, 1500 if th else 200], self.nontrivial, cmp)
 
     def search(self, tier, seed):
@@ -508,6 +509,7 @@ class C08(Prop):
         core.tie_run(stats, "vq", ["gen-race"], self.nontrivial, cmp)
         core.tie_run(stats, "vq", ["gen-conc", seed + 3, 4000 if th else 500], self.nontrivial, cmp)
         core.tie_run(stats, "vq", ["gen-stress", seed + 3, 12 if th else 4, 10000 if th else 2000], self.nontrivial, cmp)
+        core.tie_run(stats, "vq", ["gen-clones", 300000 if th else 100000], self.nontrivial, cmp)
 
     def search(self, tier, seed):
         st = core.Stats()
